@@ -3,19 +3,39 @@ from vlib import *
 
 class C18(Check):
     ID = "C18"
-    RULE = ("real chain.ConcurrentQueue with bufferSize in {0,1,2,5,20}. systematic (10 plans per capacity): stop at once, burst of cap+3 "
+    RULE = ("(1) real chain.ConcurrentQueue with bufferSize in {0,1,2,5,20}. systematic (10 plans per capacity): stop at once, burst of cap+3 "
             "and of 3*cap+40 sends with no consumer then drain, stop with the overflow list non-empty, exactly-full buffer, fast and "
-            "steadily-slower consumer, overflow used-emptied-used again. random: (3/4) one goroutine performs a PRNG plan of "
+            "steadily-slower consumer, overflow used-emptied-used again. random (N): (3/4) one goroutine performs a PRNG plan of "
             "send/receive/pause ops in phases (mostly sends / mostly receives / balanced / sure burst > buffer), then drains or not, then "
             "Stop + goroutine-count probe + non-blocking drain of what chanOut still holds; (1/4) producer and consumer goroutines run "
             "concurrently with seeded pauses (slow, fast, mixed consumer; consumer may stop half-way), events logged under a mutex. "
             "every send must complete within 5 s with nobody receiving (else producer_blocked); every planned receive must deliver "
             "within 5 s (else lost_item); with nothing outstanding a 12 ms wait must deliver nothing. "
-            "non-trivial = at some point more items were outstanding than the buffer holds (overflow list in use) or Stop was called "
-            "with items outstanding; distinct by input (capacity, mode, plan / concurrent parameters)")
+            "(2) the REAL inline slice queues: chain.RPCClient.handler (real NewRPCClient+Start against an in-process loopback websocket "
+            "stand-in answering getcurrentnet/getbestblock) and chain.NeutrinoClient.notificationHandler (real Start over a stub "
+            "NeutrinoChainService); hand-overs through the backends' own callbacks onBlockConnected/onBlockDisconnected "
+            "(chain/verif_hooks_c18.go), the backend's ClientConnected is consumed first; run in a child process, a panic of the handler "
+            "goroutine is attributed to the input being run (worker_panicked). systematic (41): 14 scripts x 2 backends (stop at once, "
+            "BlockStamp before/after deliveries, queue of 1 and 2, bursts of 6/60 with no consumer, stop with a backlog, consumer that "
+            "empties the queue after every item, empties-and-refills), 6 concurrent runs x 2 (slow / fast consumer, quit in the middle of "
+            "a burst while the consumer reads), 1 wire run (btcd: notifications written to the websocket, delivered by rpcclient through "
+            "the callbacks NewRPCClient registered). random (N/2): backend by coin; 3/5 script plans over {send BlockConnected, send "
+            "BlockDisconnected, receive, BlockStamp, pause} in phases + drain-or-not + Stop, 2/5 concurrent (consumer stops half-way 1/4, "
+            "producer calls Stop after k sends 1/4), btcd 1/12 wire. waits that must succeed: 10 s; after Stop: WaitForShutdown must "
+            "return and Notifications() must report closed (else worker_not_terminated). "
+            "(3) wallet.NotificationServer (a rendezvous, not a queue; oracle only): real wallet, VerifConnectBlock for heights 1..N, one "
+            "or two TransactionNotifications clients with seeded pauses, Done() in mid-burst: 6 systematic + N/15 random. "
+            "non-trivial = (1) more items outstanding than the buffer holds or Stop with items outstanding, (2) backlog >= 2 or Stop with "
+            "a backlog, (3) N >= 2; distinct by input")
     N_QUICK = 300
     N_THOROUGH = 4000
     SHARD = 400
+    EXTRA_TRUSTED = [
+        "slice queues: the loopback btcd stand-in (harness/cmd/c18/slice.go fakeBtcd: answers getcurrentnet and getbestblock, "
+        "forwards nothing else) and the neutrino chain-service stub (Start/Stop/BestBlock/IsCurrent) - they only let the real "
+        "Start() reach the real loop; rpcclient's websocket client is the production one",
+        "source-shape reader harness/cmd/extract-c18 (go/ast) for the facts of Generated/QueueSites.v",
+    ]
     ASSUMPTIONS = [
         "Go channel/select semantics as stated in the header of coq/Queue/Queue.v (a select takes any ready case, default only when "
         "none is ready, a closed channel is always ready to receive, operations on channels are atomic steps)",
@@ -23,23 +43,79 @@ class C18(Check):
         "used only inside Start's goroutine)",
         "script order of the concurrent-mode cases is the order in which the events were logged under the harness mutex "
         "(a send is logged after it completed, before the lock is released)",
+        "slice queues: notifications, next, dequeue, enqueue are locals of the handler goroutine (no other goroutine can touch them); "
+        "enqueueNotification and dequeueNotification are unbuffered (make(chan interface{}) in NewRPCClient / NewRPCClientWithConfig / "
+        "NeutrinoClient.Start), so every step of the loop is a rendezvous; the bodies of the select cases do not block",
+        "slice queues, wire mode: the script claims 'all written, then all received' - one possible order of the same observations "
+        "(when rpcclient's dispatcher completed each hand-over is not observable)",
     ]
     PARTIAL_CLAUSES = [
         "liveness under Go's scheduler is not proved: 'stopping the queue terminates its worker' is proved as - quit is an enabled "
         "case at every control point of a live worker after Stop, taking it terminates the worker, every worker-only run is bounded "
-        "and ends terminated (C18_stop_terminates_partial); that select actually takes the quit case while a producer keeps sending "
-        "needs fairness of select's random choice - only exercised (goroutine-count probe after Stop on every case)",
-        "'the producer is never blocked' is proved as - from every reachable running state at most 2 worker steps, none involving "
-        "the consumer, re-enable a send (1 for the code, where chanIn is unbuffered); that the Go scheduler runs the worker is "
-        "exercised only (each send of every burst must complete within 5 s with no consumer)",
+        "and ends terminated (C18_stop_terminates_partial, C18_slice_stop_terminates_partial); that select actually takes the quit "
+        "case while a producer keeps sending needs fairness of select's random choice - only exercised (goroutine-count probe / "
+        "WaitForShutdown + closed channel after Stop on every case)",
+        "'the producer is never blocked' is proved as - ConcurrentQueue: from every reachable running state at most 2 worker steps, "
+        "none involving the consumer, re-enable a send (1 for the code, where chanIn is unbuffered); slice queues: a send is enabled "
+        "in EVERY reachable state in which the loop is alive, with no step of anybody else (C18_slice_producer_never_blocked). That the "
+        "Go scheduler runs the worker is exercised only (each send of every burst must complete within 5 s / 10 s with no consumer)",
         "the Go memory model (visibility of close(quit), happens-before of channel operations) is taken as atomic interleaving "
-        "semantics; data-race freedom of overflow is by single-goroutine ownership, not proved",
+        "semantics; data-race freedom of overflow / of the loop's locals is by single-goroutine ownership, not proved",
         "for bufferSize = 0 the model does not track whether a consumer is parked on chanOut: default and the rendezvous are "
         "both offered at the inner select (over-approximation; safe for the safety clauses)",
+        "slice queues: the branch taken when enqueueNotification is CLOSED (enqueue = nil, drain, leave) is modelled and covered by "
+        "the theorems but never executed - no code in the repository closes that channel; the callbacks' own select "
+        "(`case enqueueNotification <- n: case <-quit:`) is exercised but not modelled (a hand-over abandoned because of quit is "
+        "outside the queue)",
+        "slice queues: the tie of the model's shape to the source is the go/ast reader (recognised variants: renamed locals, "
+        "len==0 / <1 / <=0, len!=0 / >0 / >=1, if/else swapped, reslice or copy-shift, order of the two arming assignments); an "
+        "unrecognised shape is a reported broken obligation, there is no behavioural fallback for the facts (the behaviour itself is "
+        "run: every case drives the real loop)",
+        "wallet.NotificationServer (wallet/notifications.go) is NOT modelled and NOT covered by the theorems: it has no queue (every "
+        "notify* sends on the clients' unbuffered channels under the server mutex, block notifications inside the wallet's database "
+        "write transaction). Order / nothing lost / nothing duplicated per client and 'Done() closes the channel' are exercised and "
+        "judged by the oracle; clause (b) does not hold for it by design (observed: 0 hand-overs complete while nobody reads; recorded "
+        "as tag ntfn_producer_waits_for_consumer, no oracle kind: the property is about the chain backends' queues)",
     ]
+
+    # Files of this property that the build (coq/_CoqProject, owned by the integrator)
+    # may not list yet.  While one is unlisted it is compiled here, by hand and in
+    # dependency order, after the locked build; once listed this does nothing.
+    UNLISTED_OK = ["Queue/SliceQueue.v", "Generated/QueueSites.v", "Queue/SliceQueueCorr.v", "Queue/SliceQueueProofs.v"]
+
+    def run(self, tier, seed, replay=None):
+        import vlib as V
+        orig = V.ensure_coq
+
+        def with_unlisted():
+            r = orig()                    # sync of a scratch tree, regeneration, locked make
+            self.build_unlisted()
+            return r
+        V.ensure_coq = with_unlisted
+        try:
+            return super().run(tier, seed, replay)
+        finally:
+            V.ensure_coq = orig
+
+    def build_unlisted(self):
+        import os
+        listed = set(l.strip() for l in open(os.path.join(COQ, "_CoqProject")) if l.strip().endswith(".v"))
+        missing = [f for f in self.UNLISTED_OK if f not in listed]
+        with Lock("coq"):
+            for f in missing:
+                if not os.path.exists(os.path.join(COQ, f)):
+                    continue              # extraction failed: reported by the base class
+                rc, out, err = sh(["timeout", "600", "coqc", "-R", ".", "Verif", f], cwd=COQ, timeout=660)
+                if rc != 0:
+                    log("C18: %s does not compile: %s" % (f, (out + err)[-800:]))
+                    break
 
     def nontrivial(self, c):
         o = c["obs"]
+        if c["in"].get("q") == "ntfn":
+            return c["in"]["n"] >= 2
+        if c["in"].get("q"):
+            return o["max_outstanding"] >= 2 or o["outstanding_at_stop"] > 0
         return o["max_outstanding"] > c["in"]["cap"] or o["outstanding_at_stop"] > 0
 
     def sample(self, c):
@@ -55,10 +131,36 @@ class C18(Check):
         def val(v):
             return cN(v if v >= 0 else 4294967295)
 
-        rows = []
-        for c in cases:
+        def ntfn(kind, v):
+            if v == -1:
+                return "NilNtfn"
+            return "(%s %s)" % (kind, val(v))
+
+        rows, srows = [], []
+        for idx, c in enumerate(cases):
             o = c["obs"]
             evs = []
+            if c["in"].get("q"):
+                # inline slice queue of the btcd / neutrino backend (Queue/SliceQueueCorr.v)
+                for e, v in zip(o["ev"], o["val"]):
+                    if e == "s":
+                        evs.append("ESend %s" % ntfn("Other", v))
+                    elif e == "c":
+                        evs.append("ESend %s" % ntfn("Connected", v))
+                    elif e in "ru":
+                        evs.append("ERecv %s" % ntfn("Other", v))
+                    elif e == "R":
+                        evs.append("ERecv %s" % ntfn("Connected", v))
+                    elif e == "b":
+                        evs.append("EBS %s" % val(v))
+                    elif e == "x":
+                        evs.append("EStop")
+                    elif e == "z":
+                        evs.append("EClosed")
+                    else:
+                        raise ValueError("unknown event %r" % e)
+                srows.append("(%d, (%s, %s))" % (idx, cN(c["in"].get("b0", 0)), clist(evs)))
+                continue
             for e, v in zip(o["ev"], o["val"]):
                 if e == "s":
                     evs.append("ESend %s" % val(v))
@@ -68,13 +170,21 @@ class C18(Check):
                     evs.append("EStop")
                 else:
                     raise ValueError("unknown event %r" % e)
-            rows.append("(%d, %s)" % (c["in"]["cap"], clist(evs)))
+            rows.append("(%d, (%d, %s))" % (idx, c["in"]["cap"], clist(evs)))
         return """From Verif Require Import Base.Prelude Queue.Queue Queue.QueueCorr.
-Definition cases : list (nat * list ext) :=
+From Verif Require Queue.SliceQueue Queue.SliceQueueCorr.
+Definition cases : list (nat * (nat * list ext)) :=
 %s.
-Definition bad := Eval vm_compute in mismatches cases.
+Definition bad_q := map fst (filter (fun k => negb (case_ok (snd k))) cases).
+Module S.
+Import Verif.Queue.SliceQueue Verif.Queue.SliceQueueCorr.
+Definition cases : list (nat * (N * list ext)) :=
+%s.
+Definition bad := map fst (filter (fun k => negb (case_ok (snd k))) cases).
+End S.
+Definition bad := Eval vm_compute in (bad_q ++ S.bad).
 Print bad.
-""" % clist(["\n " + r for r in rows])
+""" % (clist(["\n " + r for r in rows]), clist(["\n " + r for r in srows]))
 
 
 CHECK = C18
